@@ -11,7 +11,7 @@ from typing import Any, Dict, List, Optional, Sequence, Tuple
 
 from hypothesis import strategies as st
 
-from .. import bpapi, cases, constexpr as CE, env, pyexec, ref
+from .. import bpapi, constexpr as CE, env, pyexec, ref
 from ..gointerp import GoSyntaxError, Program, RUNTIME_IMPORT_PATH, tokenize
 from ..model import Field, Message, TArray, TBase
 from ..runner import FuncPart, HypPart, Stats, Violation
@@ -47,7 +47,10 @@ ASSUMPTIONS = [
     "literals are non-negative. A negative operand of a division is never generated (floor vs truncation would differ)",
     "a decimal literal with leading zeros is decimal (lexer token [0-9]+; the statement names only decimal and hexadecimal)",
     "integer constants and all intermediates are kept within +-(2^63-1) (what Go `int`, C `long long` and Python all hold); "
-    "INT64_MIN itself is not generated (its C spelling -9223372036854775808 is not a long long literal)",
+    "INT64_MIN itself is not generated (its C spelling -9223372036854775808 is not a long long literal). About 2 % of the "
+    "integer constants are deliberately beyond int64 (2^63, 2^64-1, 2^64, 10^20; literal or sum): they are judged in the parsed "
+    "schema and in Python, never used as operands, and their C / Go emission is excluded by rule and counted (Go `const X int = "
+    "18446744073709551615` cannot compile: the generated Go type is not part of the statement)",
     "a C string constant denotes the UTF-8 bytes of the declared value; NUL, U+FEFF and `??` are not generated (NUL terminates C "
     "strings, Go rejects NUL/BOM in source, trigraphs depend on the C dialect); a raw CR cannot be written in a schema FILE "
     "(universal newlines) and is generated through \\r only",
@@ -63,7 +66,7 @@ ASSUMPTIONS = [
 REQUIRED_LABELS = [
     "chain:--", "chain://", "chain:-+", "chain:/*", "prec:tighter_right", "prec:tighter_left", "group:left", "group:right",
     "par_redundant_expr", "par_redundant_atom", "lit_hex", "lit_dec", "lit_dec_leading_zero", "lit_gt_2p53", "div_inexact",
-    "div_dividend_gt_2p53", "ref", "ref_import", "ref_as", "ref_two_hop", "value_negative",
+    "div_dividend_gt_2p53", "ref", "ref_import", "ref_as", "ref_two_hop", "value_negative", "beyond_int64",
     "sens:right_assoc_addsub", "sens:right_assoc_muldiv", "sens:swapped_precedence", "sens:flat_precedence", "sens:float_division",
     "bool:true", "bool:false", "bool:yes", "bool:no",
     "str_esc:\\t", "str_esc:\\r", "str_esc:\\n", "str_esc:\\\\", "str_esc:\\'", "str_esc:\\\"", "str_raw_tab", "str_raw_control",
@@ -239,6 +242,8 @@ class _Gen:
                 h = self.files[imp2[0]]
                 n2 = imp_name(self.files, imp2)
                 out.extend((f"{n1}.{n2}.{d.name}", d.value, d) for d in h.consts() if d.kind == kind)
+        if kind == "int":
+            out = [r for r in out if abs(r[1]) <= CE.INT64_MAX]  # constants beyond int64 are never operands
         return out
 
     def ref_labels(self, f: CFile, text: str) -> List[str]:
@@ -286,6 +291,22 @@ class _Gen:
         assert d.value == target
         f.items.append(d)
         return d
+
+    def big_const(self, f: CFile) -> CDef:
+        """An integer beyond int64 (fits uint64 or not): judged in the parsed schema and in Python only."""
+        d = self.draw
+        v = d(st.sampled_from([(1 << 63), (1 << 64) - 1, (1 << 64), (1 << 63) + 12345, 10**20]))
+        form = d(st.integers(0, 2))
+        if form == 0:
+            e: Any = CE.Lit(v, str(v))
+        elif form == 1:
+            e = CE.Lit(v, "0x%X" % v)
+        else:
+            a = d(st.integers(1, 1 << 20))
+            e = CE.Bin("+", CE.Lit(v - a, str(v - a)), CE.Lit(a, "0x%x" % a))
+        assert CE.self_check(e) == v
+        text = CE.render(e, d(CE.spacing()))
+        return self.deco(CDef(self.name("K_"), "int", v, text, ["beyond_int64"] + CE.shape_labels(e), False))
 
     def bool_const(self, f: CFile) -> CDef:
         sp = self.draw(st.sampled_from(["true", "false", "yes", "no"]))
@@ -423,8 +444,10 @@ class _Gen:
         small_file = d(st.integers(0, 3)) == 0
         for _ in range(n):
             k = d(st.integers(0, 99))
-            if k < 58:
+            if k < 56:
                 f.items.append(self.int_const(f, "small" if small_file or d(st.integers(0, 3)) == 0 else "any"))
+            elif k < 58:
+                f.items.append(self.big_const(f))
             elif k < 68:
                 f.items.append(self.bool_const(f))
             elif k < 90:
@@ -464,6 +487,10 @@ def strategy_(draw: Any) -> Case:
 # ---------------------------------------------------------------------------
 # Observation helpers
 # ---------------------------------------------------------------------------
+
+
+def is_big(d: CDef) -> bool:
+    return d.kind == "int" and abs(d.value) > CE.INT64_MAX
 
 
 def same(kind: str, got: Any, want: Any) -> bool:
@@ -584,6 +611,8 @@ def c_driver(f: CFile) -> Tuple[str, Dict[int, Optional[CDef]]]:
     ]
     owner: Dict[int, Optional[CDef]] = {}
     for d in f.consts():
+        if is_big(d):
+            continue
         if d.kind == "int":
             lines.append(f'    printf("I {d.name} %lld\\n", (long long)({d.name}));')
         elif d.kind == "bool":
@@ -668,6 +697,9 @@ def check_c(c: Case, fi: int, outdir: str, work: str, stats: Stats) -> None:
         parts = line.split(" ")
         got[parts[0] + " " + parts[1]] = parts[2:]
     for d in f.consts():
+        if is_big(d):
+            stats.exclude("integer constant beyond int64: C emission not judged (no C integer type is implied by the statement)")
+            continue
         stats.evaluations += 1
         stats.count("emit:c")
         if d.kind == "int":
@@ -787,6 +819,9 @@ def check_go(c: Case, fi: int, outdir: str, stats: Stats) -> None:
     stats.target("Go files lexed")
     decl = go_const_tokens(toks, [d.name for d in consts])
     for d in consts:
+        if is_big(d):
+            stats.exclude("integer constant beyond int64: Go emission not judged (`const X int` cannot hold it)")
+            continue
         stats.evaluations += 1
         stats.count("emit:go")
         if d.name not in decl:
@@ -808,7 +843,7 @@ def check_go(c: Case, fi: int, outdir: str, stats: Stats) -> None:
             stats.known_finding("D2", d2_what(d, "go") + f": Go initialiser tokens {[t.text for t in init]!r}")
             continue
         raise Violation(f"Go constant {d.name} initialiser {[t.text for t in init]!r} does not denote {d.value!r} (declared `{d.text}`)", signature=f"go-value:{d.kind}")
-    if not f.imports and lost_after is None and not shaped:
+    if not f.imports and lost_after is None and not shaped and not any(is_big(d) for d in f.consts()):
         # full type check by the Go interpreter (files with imports: recorded finding D10, an import used only by constants is unused)
         try:
             prog = Program({RUNTIME_IMPORT_PATH: go_runtime(), f.base + "_bp": src})
